@@ -1738,9 +1738,12 @@ void IGXMLScanner::scanRawAttrListforNameSpaces(XMLSize_t attCount)
                             DatatypeValidator* tempDV = DatatypeValidatorFactory::getBuiltInRegistry()->get(SchemaSymbols::fgDT_BOOLEAN);
                             normalizeAttRawValue(SchemaSymbols::fgATT_NILL, valuePtr, fXsiNil);
                             ((SchemaValidator*) fValidator)->normalizeWhiteSpace(tempDV, fXsiNil.getRawBuffer(), fXsiNil, true);
-                            if(XMLString::equals(fXsiNil.getRawBuffer(), SchemaSymbols::fgATTVAL_TRUE))
+                            // xs:boolean has the lexical forms true, false, 1 and 0
+                            if(XMLString::equals(fXsiNil.getRawBuffer(), SchemaSymbols::fgATTVAL_TRUE)
+                            || XMLString::equals(fXsiNil.getRawBuffer(), XMLUni::fgValueOne))
                                 ((SchemaValidator*)fValidator)->setNillable(true);
-                            else if(XMLString::equals(fXsiNil.getRawBuffer(), SchemaSymbols::fgATTVAL_FALSE))
+                            else if(XMLString::equals(fXsiNil.getRawBuffer(), SchemaSymbols::fgATTVAL_FALSE)
+                                 || XMLString::equals(fXsiNil.getRawBuffer(), XMLUni::fgValueZero))
                                 ((SchemaValidator*)fValidator)->setNillable(false);
                             else
                                 emitError(XMLErrs::InvalidAttValue, fXsiNil.getRawBuffer(), valuePtr);
